@@ -62,4 +62,15 @@ Proof.
   destruct Hp as [Hp|Hp]; rewrite Hp; reflexivity.
 Qed.
 
+(* lost Metadata: the receiver's 0-0 request survives the sender's request splitting as the marker,
+   and the marker at the head of the sender's queue is answered with the Metadata PDU itself *)
+Theorem metadata_marker_kept seg fsize : split_request seg fsize (0, 0) = [(0, 0)].
+Proof. reflexivity. Qed.
+Theorem metadata_retransmitted_on_marker now t (s : sstate) : s_naks s = (0, 0) :: t ->
+  let s' := fst (send_missing_data resp_len req_len now s) in
+  (exists p, s_out s' = OPdu p :: s_out s /\ o_payload p = PMetadata (s_meta s)) /\ s_naks s' = t.
+Proof.
+  intros Hn. cbn zeta. unfold send_missing_data. rewrite Hn. cbn. split; [eexists; split; reflexivity|reflexivity].
+Qed.
+
 End ClosingP.
